@@ -560,7 +560,7 @@ pub fn current_record(prop: &str, class: &str, msg: String, trace: Vec<u32>) -> 
     Some(Replay {
         property: p.to_string(),
         family: "D".into(),
-        engine: "S".into(),
+        engine: engine_name().into(),
         mode,
         seed,
         scenario: sc,
@@ -741,11 +741,22 @@ pub fn eval_on(b: &mut Built, sc: &Scenario, mode: &str, strat: &StratSpec, rs: 
 }
 
 #[allow(clippy::too_many_arguments)]
+pub fn engine_name() -> &'static str {
+    if cfg!(feature = "real") {
+        "R"
+    } else if cfg!(feature = "sim") {
+        "S"
+    } else {
+        "nopar"
+    }
+}
+
+#[allow(clippy::too_many_arguments)]
 fn mk_replay(prop: &str, seed: u64, sc: &Scenario, mode: &str, strat: &StratSpec, rs: u64, trace: Option<Vec<u32>>, digest: u64, v: &Violation) -> Replay {
     Replay {
         property: prop.to_string(),
         family: "D".into(),
-        engine: "S".into(),
+        engine: engine_name().into(),
         mode: mode.to_string(),
         seed,
         scenario: serde_json::to_value(sc).unwrap(),
